@@ -95,21 +95,21 @@ func latticeDims() []*dim {
 func aliasMods() []Mod {
 	hl := func(p *Proto) uint16 { return uint16(p.S.H)<<8 | uint16(p.S.L) }
 	return []Mod{
-		func(p *Proto) { p.S.D, p.S.E = p.S.H, p.S.L },               // DE = HL
-		func(p *Proto) { p.S.B, p.S.C = p.S.H, p.S.L },               // BC = HL
-		func(p *Proto) { p.S.B, p.S.C = p.S.D, p.S.E },               // BC = DE
-		func(p *Proto) { p.S.SP = hl(p) },                            // SP = HL
-		func(p *Proto) { p.S.SP = hl(p) + 1 },                        // SP = HL+1
-		func(p *Proto) { p.S.IY = p.S.IX },                           // IY = IX
-		func(p *Proto) { p.S.IX = hl(p) },                            // IX = HL
-		func(p *Proto) { p.S.IY = hl(p) },                            // IY = HL
-		func(p *Proto) { p.S.SP = p.S.IX },                           // SP = IX
-		func(p *Proto) { p.S.SP = p.S.IY },                           // SP = IY
-		func(p *Proto) { p.NN = hl(p) },                              // nn = HL
-		func(p *Proto) { p.NN = p.S.SP },                             // nn = SP
-		func(p *Proto) { p.NN = p.S.SP - 1 },                         // nn+1 = SP
-		func(p *Proto) { v := hl(p) + 1; set16(&p.S.D, &p.S.E, v) },  // DE = HL+1
-		func(p *Proto) { v := hl(p) - 1; set16(&p.S.D, &p.S.E, v) },  // DE = HL-1
+		func(p *Proto) { p.S.D, p.S.E = p.S.H, p.S.L },                // DE = HL
+		func(p *Proto) { p.S.B, p.S.C = p.S.H, p.S.L },                // BC = HL
+		func(p *Proto) { p.S.B, p.S.C = p.S.D, p.S.E },                // BC = DE
+		func(p *Proto) { p.S.SP = hl(p) },                             // SP = HL
+		func(p *Proto) { p.S.SP = hl(p) + 1 },                         // SP = HL+1
+		func(p *Proto) { p.S.IY = p.S.IX },                            // IY = IX
+		func(p *Proto) { p.S.IX = hl(p) },                             // IX = HL
+		func(p *Proto) { p.S.IY = hl(p) },                             // IY = HL
+		func(p *Proto) { p.S.SP = p.S.IX },                            // SP = IX
+		func(p *Proto) { p.S.SP = p.S.IY },                            // SP = IY
+		func(p *Proto) { p.NN = hl(p) },                               // nn = HL
+		func(p *Proto) { p.NN = p.S.SP },                              // nn = SP
+		func(p *Proto) { p.NN = p.S.SP - 1 },                          // nn+1 = SP
+		func(p *Proto) { v := hl(p) + 1; set16(&p.S.D, &p.S.E, v) },   // DE = HL+1
+		func(p *Proto) { v := hl(p) - 1; set16(&p.S.D, &p.S.E, v) },   // DE = HL-1
 		func(p *Proto) { p.S.IX = p.S.PC - uint16(int16(int8(p.D))) }, // IX+d = PC
 		func(p *Proto) { p.S.IY = p.S.PC - uint16(int16(int8(p.D))) + 1 },
 	}
